@@ -483,7 +483,7 @@ func blummodCase(bits int) *sigCase[*blummod.Statement, *blummod.Witness, *blumm
 		St = *blummod.State
 		Z  = *blummod.Response
 	)
-	c := &sigCase[X, W, A, St, Z]{name: fmt.Sprintf("cggmp21-blummod/%d", bits), heavy: true, unitMS: 166}
+	c := &sigCase[X, W, A, St, Z]{name: fmt.Sprintf("cggmp21-blummod/%d", bits), heavy: true, unitMS: 166, noSimulator: blummod.ErrUnsupported}
 	c.mk = func(rng io.Reader) sigma.Protocol[X, W, A, St, Z] { return must(blummod.NewProtocol(rng)) }
 	c.inst = func(i int) (X, W) {
 		sk := paillierKey(keyFlavours[i], bits)
